@@ -657,39 +657,78 @@ func (c *Ctx) checkSysAndSelfNames() {
 			}
 			return true, constant.StringVal(kc.Value) == self
 		}
-		cut := core.AssumedCuts(etn)
-		core.AssumeFn = nil
-		reach := core.ReachBlocks(etn, nil, cut)
 		seen := 0
-		core.AllInstrs(etn, func(in ssa.Instruction) {
-			ret, ok := in.(*ssa.Return)
-			if !ok || !reach[ret.Block()] {
-				return
-			}
-			var vals []ssa.Value
-			if phi, isPhi := ret.Results[0].(*ssa.Phi); isPhi && phi.Block() == ret.Block() {
-				for i, e := range phi.Edges {
-					pred := phi.Block().Preds[i]
-					edgeCut := false
-					for si, su := range pred.Succs {
-						if su == phi.Block() && cut[core.Edge{From: pred, Idx: si}] {
-							edgeCut = true
+		// evaluate a function's result #idx under the assumption; a result produced by an extracted
+		// decision function is followed into that function (parameters substituted)
+		var eval func(fn *ssa.Function, idx int, depth int)
+		eval = func(fn *ssa.Function, idx int, depth int) {
+			cut := core.AssumedCuts(fn)
+			reach := core.ReachBlocks(fn, nil, cut)
+			core.AllInstrs(fn, func(in ssa.Instruction) {
+				ret, ok := in.(*ssa.Return)
+				if !ok || !reach[ret.Block()] || idx >= len(ret.Results) {
+					return
+				}
+				var vals []ssa.Value
+				if phi, isPhi := ret.Results[idx].(*ssa.Phi); isPhi && phi.Block() == ret.Block() {
+					for i, e := range phi.Edges {
+						pred := phi.Block().Preds[i]
+						edgeCut := false
+						for si, su := range pred.Succs {
+							if su == phi.Block() && cut[core.Edge{From: pred, Idx: si}] {
+								edgeCut = true
+							}
+						}
+						if reach[pred] && !edgeCut {
+							vals = append(vals, e)
 						}
 					}
-					if reach[pred] && !edgeCut {
-						vals = append(vals, e)
+				} else {
+					vals = append(vals, ret.Results[idx])
+				}
+				for _, v := range vals {
+					// the result of a module function: decide inside it
+					var call *ssa.Call
+					ridx := 0
+					switch x := v.(type) {
+					case *ssa.Call:
+						call = x
+					case *ssa.Extract:
+						if cc, ok := x.Tuple.(*ssa.Call); ok {
+							call, ridx = cc, x.Index
+						}
+					}
+					if call != nil && depth < 2 {
+						if cal := call.Call.StaticCallee(); cal != nil && core.InPkg(cal, "server") && takesStrings(cal) {
+							callee := call.Call.StaticCallee()
+							saved := core.ParamSubst
+							ns := map[ssa.Value]ssa.Value{}
+							for k, v2 := range saved {
+								ns[k] = v2
+							}
+							for i, p := range callee.Params {
+								if i < len(call.Call.Args) {
+									ns[p] = call.Call.Args[i]
+								}
+							}
+							core.ParamSubst = ns
+							eval(callee, ridx, depth+1)
+							core.ParamSubst = saved
+							continue
+						}
+					}
+					if _, isConst := core.Strip(v).(*ssa.Const); isConst {
+						continue // an error return's empty name: not influenced by anything
+					}
+					seen++
+					if !derivesFrom(v, asUser) || derivesFrom(v, orig) {
+						okAll = false
 					}
 				}
-			} else {
-				vals = append(vals, ret.Results[0])
-			}
-			for _, v := range vals {
-				seen++
-				if !derivesFrom(v, asUser) || derivesFrom(v, orig) {
-					okAll = false
-				}
-			}
-		})
+			})
+		}
+		eval(etn, 0, 0)
+		core.AssumeFn = nil
 		if seen > 0 {
 			nSelf++
 		}
@@ -820,4 +859,20 @@ func singleReturnOf(fn *ssa.Function) *ssa.Return {
 		return nil
 	}
 	return out
+}
+
+// takesStrings: every parameter (after the receiver) is a string: a pure naming helper.
+func takesStrings(fn *ssa.Function) bool {
+	n := 0
+	for i, p := range fn.Params {
+		if i == 0 && fn.Signature.Recv() != nil {
+			continue
+		}
+		b, ok := p.Type().Underlying().(*types.Basic)
+		if !ok || b.Kind() != types.String {
+			return false
+		}
+		n++
+	}
+	return n > 0
 }
